@@ -111,6 +111,7 @@ SPEC_MUTANTS = [
     ("ec-shifted", "FastQR.tla", "eblk |-> [bk \\in 1..nb |-> RSRemainder(dblk[bk], ec)]", "eblk |-> [bk \\in 1..nb |-> RSRemainder(Tail(dblk[bk]) \\o <<0>>, ec)]", "MC_Pipeline.tla", "MC_Pipeline_quick.cfg", "BlocksValidInv|ECIsRemainderInv"),
     ("format-copy2-shift", "FastQR.tla", "![Idx(n, FormatPos2(n, bt)[1], FormatPos2(n, bt)[2])] = Bit(w, bt)]", "![Idx(n, FormatPos2(n, bt)[1], FormatPos2(n, bt)[2])] = Bit(w, (bt + 1) % 15)]", "MC_Pipeline.tla", "MC_Pipeline_quick.cfg", "FormatVersionTruthInv"),
     ("mask-touches-format", "QRMask.tla", None, None, None, None, None),
+    ("fits-strict", "QREncode.tla", "SegBits(mode, n) <= 8 * DataCW(v, e) /\\ n < 2^Cci(mode, v)", "SegBits(mode, n) < 8 * DataCW(v, e) /\\ n < 2^Cci(mode, v)", "MC_Lemmas.tla", "MC_Lemmas_quick.cfg", "LemmaInv"),
     ("select-loop-skips-mask7", "MaskSelect.tla", "Step == /\\ i <= 7", "Step == /\\ i <= 6", "MC_MaskSelect.tla", "MC_MaskSelect_quick.cfg", "deadlock|Minimal|IndInv"),
     ("select-loop-greater", "MaskSelect.tla", "IF bestScore < 0 \\/ score[i] < bestScore", "IF bestScore < 0 \\/ score[i] > bestScore", "MC_MaskSelect.tla", "MC_MaskSelect_quick.cfg", "Minimal|IndInv"),
     ("file-ok-after-write-fault", "FileOps.tla", '[] fs.phase \\in {"create_failed", "write_failed"} -> F_ReturnErr(fs)', '[] fs.phase \\in {"create_failed", "write_failed"} -> F_ReturnOk(fs)', "FileIO.tla", "MC_FileIO.cfg", "FileAllOrError"),
